@@ -190,8 +190,13 @@ def obligations(tier):
     if not hasattr(generate, "cache"):
         generate(tier)
     obs, skipped, total = generate.cache
-    global ASSUMPTIONS_DYNAMIC
-    return list(obs) + STATIC
+    # the built-in arithmetic of the VM itself: the same generated harnesses as C01/arith (they apply the expression text of
+    # each `execute_` arm to all operands); under C06 what matters is that none of them can panic inside the interpreter
+    import c01
+    arith = [dict(o, name=o["name"].replace("C01/arith/", "C06/vm_arith/"),
+                  clause="interpreter arm never panics on any operands (overflow and division by zero are error values): " + o["clause"])
+             for o in c01.obligations(tier) if o["name"].startswith("C01/arith/")]
+    return list(obs) + arith + STATIC
 
 
 def extra_evidence():
